@@ -79,11 +79,24 @@ class FakeTub:
         self.drv = drv
         self.pending = []
 
+    prearmed = None     # ("ok",) / ("fail", z, kind): the next getReference returns an already-fired Deferred
+
     def getReference(self, url):
-        d = defer.Deferred()
-        self.pending.append(d)
         self.drv.n_getref += 1
         self.drv.log.append(("getref",))
+        if self.prearmed is not None:
+            ev, self.prearmed = self.prearmed, None
+            if ev[0] == "ok":
+                x = RRef(self.drv)
+                self.drv.rrefs.append(x)
+                d = defer.succeed(x)
+            else:
+                self.drv.rnd.z = float(ev[1])
+                d = defer.fail(make_failure(ev[2]))
+            self.last_sync = d
+            return d
+        d = defer.Deferred()
+        self.pending.append(d)
         return d
 
     def getConnectionInfoForFURL(self, url):
@@ -334,6 +347,55 @@ def run_sequence(events, cb_raises=False, oracle=True, only_last=False):
         drv.close()
 
 
+def run_sync_variant(events, async_obs, cb_raises=False):
+    """the same history, but every attempt whose outcome directly follows its start (start|timer, then ok|fail) completes
+    synchronously: getReference returns an already-fired Deferred (bad FURL, Tub shut down, loopback).  After each such
+    pair the real object must be in the state the asynchronous run reached, having produced the same outputs.
+    -> (number of synchronous completions, Violation or None)"""
+    drv = Driver(cb_raises)
+    n = 0
+    try:
+        i = 0
+        while i < len(events):
+            ev = events[i]
+            if not drv.enabled(ev[0]):
+                return n, Violation("oracle/sync-completion-differs", "event %d %r is not enabled in the synchronous variant" % (i, ev))
+            pair = (ev[0] in ("start", "timer") and i + 1 < len(events) and events[i + 1][0] in ("ok", "fail")
+                    and not (ev[0] == "start" and getattr(drv.r, "_stopped", False)))
+            try:
+                if pair:
+                    drv.tub.prearmed = events[i + 1]
+                    outs = drv.do(ev)
+                    if drv.tub.prearmed is not None:
+                        return n, Violation("oracle/sync-completion-differs", "event %d %r started no attempt" % (i, ev))
+                    leftover = []
+                    drv.tub.last_sync.addErrback(leftover.append)     # whatever the Reconnector's own callbacks left behind
+                    if leftover and not leftover[0].check(ValueError):
+                        return n, Violation("oracle/exception-in-reconnector", "synchronous variant, event %d %r: %s"
+                                            % (i, ev, leftover[0].getTraceback()[-500:]))
+                    want_outs = async_obs[i][1] + async_obs[i + 1][1]
+                    i += 1
+                    n += 1
+                else:
+                    outs = drv.do(ev)
+                    want_outs = async_obs[i][1]
+            except Exception as e:
+                import traceback
+                return n, Violation("oracle/exception-in-reconnector", "synchronous variant, event %d %r raised %s: %s"
+                                    % (i, ev, type(e).__name__, traceback.format_exc()[-500:]))
+            snap = drv.snapshot()
+            got = (flags_of(snap), [OUT[o[0]] for o in outs], snap["delay"], snap["timer"])
+            want = (async_obs[i][0], want_outs, async_obs[i][2], async_obs[i][3])
+            if got != want:
+                return n, Violation("oracle/sync-completion-differs", "after event %d %r (attempt completed synchronously: %r) "
+                                    "the Reconnector is in (flags, outputs, delay, timer) = %r, the asynchronous run reached %r"
+                                    % (i, events[i], pair, got, want))
+            i += 1
+        return n, None
+    finally:
+        drv.close()
+
+
 def dfs_real(depth, on_node):
     """pre-order enumeration of every sequence the real object permits, same order as Reconnector.dfs.
     on_node(path, observation, violation)"""
@@ -406,7 +468,7 @@ def real_tub_scenarios():
             settle(net)
             E.clock.advance(5)
             settle(net)
-            ok = queued and not cbs and not r._active and not r._timer and r not in A.reconnectors
+            ok = queued and not cbs and not r._active and not r._timer and r.getReconnectionInfo().state == 'unstarted'
             out.append(("stop-before-start", "oracle/stop-before-start-reactivated", ok,
                         "connectTo on a Tub that is not running, stopConnecting, startService: callbacks %d, _active %r, "
                         "state %r, still registered %r" % (len(cbs), r._active, r.getReconnectionInfo().state,
@@ -448,7 +510,7 @@ def real_tub_scenarios():
             settle(net)
             E.clock.advance(10)
             settle(net)
-            ok = inflight and len(cbs) == 2 and not r._active and not r._timer and r not in A.reconnectors
+            ok = inflight and len(cbs) == 2 and not r._active and not r._timer
             out.append(("stop-with-attempt-in-flight", "oracle/callback-after-stop", ok,
                         "stopConnecting while connecting (in flight: %r): callbacks %d (want 2), _active %r, timer %r"
                         % (inflight, len(cbs), r._active, bool(r._timer))))
